@@ -392,8 +392,8 @@ def run(ctx, anchors=None):
     for n in opstep.nodes():
         if n["k"] == "if":
             for c in S.conjuncts(n["cond"]):
-                labs = S.compared_enumerators(c, is_opcode)
-                if labs and len(labs) >= 8:
+                labs = common.opcode_predicate_set(prog, opstep, c, is_opcode)
+                if labs and 8 <= len(labs) <= 64:
                     gate = n
     if gate is None:
         ctx.fail("R01.7", "gate-present", opstep.loc(), "the disabled-opcode gate is missing from the operation step")
